@@ -102,6 +102,17 @@ def decide(queries, timeout=20, cross=True):
             s = z3.Solver()
             for a in q.assertions:
                 s.add(a)
+            # a counterexample that is to be replayed natively must give uninterpreted terms their real meaning
+            extra = q.meta.get("model_constraints") if isinstance(q.meta, dict) else None
+            if extra:
+                s.push()
+                s.set("timeout", 20000)
+                for a in extra:
+                    s.add(a)
+                if s.check() == z3.sat:
+                    q.model = s.model()
+                    continue
+                s.pop()
             if s.check() == z3.sat:
                 q.model = s.model()
             else:
